@@ -449,7 +449,7 @@ PROPS.update({
                       "A sweep with a counting StateDB and allocation accounting runs each journal instruction and the context-write precompile with length fields 2^5..2^16 (2^22 thorough). MODEXP's fee function is modelled with its clamp (Model/ModExp.v): unless the fee is the unpayable maximum, the operand lengths the input declares are at most 51 x fee + 66; the model is run against RequiredGas of both schedules. The frame's memory (Model/MemGas.v): for every sequence of expansions the bytes held are at most 32/3 x the gas paid for them; run against memory length and cost of successive instructions.",
         "level_note": COMMON_NOTE + "For the inherited opcodes the statement is inherited from go-ethereum v1.12.0 (the identity theorem over regenerated digests is part of C20's theorems) and additionally swept (sizes 2^k against allocation per gas), not re-proved. Allocation is measured with runtime.MemStats (TotalAlloc delta).",
         "rule": "6 instruction/precompile shapes x k = 5..16 (22): a length field of 2^k placed where it could drive reads, copies or allocations; plus 4 journal instructions with a pointer operand 2^10..2^24 beyond the frame's memory; bound checked: reads <= gas/100 + 2, allocated bytes <= 128 KiB + 16 x memory size; "
-                "plus 16 inherited copy/hash/log/call/create/return shapes x size 2^12..2^26 (thorough 2^10..2^63) x {Berlin, Cancun}: allocated bytes of the whole transaction <= 256 KiB + 8 x gas used; "
+                "plus 16 inherited copy/hash/log/call/create/return shapes x size 2^12..2^26 (thorough 2^10..2^63) x {Berlin, Cancun}: allocated bytes of the whole transaction <= 256 KiB + 8 x gas used; plus CREATE2 over 2^k bytes (k = 10..20) of paid-for memory at offsets 0/64/half on Constantinople, Berlin, London: gas added >= 6 per 32 bytes hashed; "
                 "non-trivial = any case; distinct = (shape, k)",
         "modelled": ["vm/instructions.go:926-1140", "vm/contracts.go:1161-1193", "vm/gas_table.go makeGasJournal"],
         "assumptions": [],
